@@ -107,7 +107,8 @@ def r11a(ctx):
         if fn is None:
             raise AnalysisError(f'DNAS.{name} not found')
         got: Dict[str, Set] = {}
-        for p in paths(repo, fn):
+        for p in paths(repo, fn, keep=('nas_parameters', 'net_parameters',
+                                       'named_nas_parameters', 'named_net_parameters')):
             for e in p.events:
                 if e.kind == 'setattr' and e.data[1] == 'requires_grad':
                     recv, v = e.data[0], e.data[2]
@@ -179,7 +180,7 @@ def r11b(ctx):
         ctx.ob('R11b', f'requires_grad store in {fn.qualname.split("plinio.")[-1]}', ok,
                kind if ok else f'unclassified store to requires_grad: {kind}', where(fn, e.node),
                nontrivial=False)
-    ctx.floor('R11b', 'requires_grad store sites', n, 8)
+    ctx.floor('R11b', 'requires_grad store sites', n, 3)
 
 
 def optional_none_params(fn: FunctionInfo) -> List[str]:
@@ -349,6 +350,35 @@ def rederivation(ctx, fn, recv, attr, guards, opt_terms) -> Tuple[bool, str]:
     return True, ''
 
 
+LEAF_ATTRS = {('attr', SELF, '_leaf_modules'), ('attr', SELF, '_unique_leaf_modules')}
+
+
+def leaf_domain(repo, w: ClassInfo, dom, _depth: int = 0) -> bool:
+    """The iteration domain enumerates the wrapper's leaf list (possibly filtered): the list
+    itself, a comprehension / list() / tuple() over it, or a call of a generator method of the
+    wrapper whose every ``yield`` sits in a loop over the leaf list."""
+    if dom is None or _depth > 2:
+        return False
+    if dom in LEAF_ATTRS:
+        return True
+    if dom[0] == 'comp' and dom[3] and leaf_domain(repo, w, dom[3][0][1], _depth + 1):
+        return True
+    if is_call(dom, 'builtins.list', 'builtins.tuple', 'builtins.iter') and dom[2]:
+        return leaf_domain(repo, w, dom[2][0], _depth + 1)
+    mc = method_call(dom)
+    if mc and mc[0] == SELF and not mc[2]:
+        m = repo.find_method(w, mc[1])
+        if m is not None:
+            ys = [(p, e) for p in paths(repo, m) for e in p.events if e.kind == 'yield']
+            if ys and all(any(c[0] == 'loop' and leaf_domain(repo, w, c[2], _depth + 1)
+                              for c in e.ctx) for _p, e in ys):
+                return True
+            rets = [p.retval for p in returning(paths(repo, m)) if p.retval is not None]
+            if rets and not ys and all(leaf_domain(repo, w, r, _depth + 1) for r in rets):
+                return True
+    return False
+
+
 def r11d(ctx):
     repo = ctx.repo
     n = 0
@@ -366,8 +396,9 @@ def r11d(ctx):
             msg = ''
             for p, e in layer_stores:
                 recv, attr, val = e.data[0], e.data[1], e.data[2]
-                in_leaf_loop = any(c[0] == 'loop' and c[2] in LEAF for c in e.ctx)
-                from_leaf = mentions(recv, lambda x: x[0] == 'elem' and x[1] in LEAF)
+                in_leaf_loop = any(c[0] == 'loop' and leaf_domain(repo, w, c[2]) for c in e.ctx)
+                from_leaf = mentions(recv, lambda x: x[0] == 'elem' and
+                                     leaf_domain(repo, w, x[1]))
                 guards = guards_of(p, e) if e in p.events else []
                 bad_guard = [a for a, v in guards
                              if not (is_call(a, 'builtins.hasattr', 'builtins.isinstance'))]
@@ -393,15 +424,8 @@ def options_reach_every_layer(ctx, rule: str, only=None):
         fn = w.methods.get('update_softmax_options')
         if fn is None or (only and w.name not in only):
             continue
-        def over_leaves(dom) -> bool:
-            # the leaf list itself, or a (filtered) comprehension / list() / tuple() of it
-            if dom in LEAF:
-                return True
-            if dom is not None and dom[0] == 'comp' and dom[3] and dom[3][0][1] in LEAF:
-                return True
-            if dom is not None and is_call(dom, 'builtins.list', 'builtins.tuple') and dom[2]:
-                return over_leaves(dom[2][0])
-            return False
+        def over_leaves(dom, w=w) -> bool:
+            return leaf_domain(repo, w, dom)
         ok = False
         exhausted = []
         for p in paths(repo, fn):
